@@ -8,6 +8,6 @@ def receiveN : List (List (Nat × Nat)) :=
    [(0, 0), (1, 1), (2, 2), (3, 3), (4, 4)]]
 def maxSelectNum : Nat := 5
 def copyFacts : CopyFacts := { fillOnce := true, closeIncr := true, closeAtLen := true }
-def facts : Facts := { copy := copyFacts, tbl := receiveN, maxSel := maxSelectNum }
+def facts : Facts := { copy := copyFacts, tbl := receiveN, maxSel := maxSelectNum, fwdCloses := true }
 
 end EinoV.Expected.C08
